@@ -357,8 +357,9 @@ def doc_effect(case, res):
         return None
     if kind == 'unreadable' and not ROOT:
         return None
-    if pre not in ('none', 'file') or case['inmode'] & 0o7000:
+    if pre not in ('none', 'file'):
         return None
+    special = bool(case['inmode'] & 0o7000)
     out = doc_outname(name, d)
     if out == '' or len(os.path.basename(out).encode()) > 255:
         return None
@@ -380,7 +381,11 @@ def doc_effect(case, res):
     if om != 'regf':
         return {'skip': '-', 'fatal': False, 'status': 0, 'out': None,
                 'oldrm': False, 'inrm': False}
-    return {'skip': '-', 'fatal': False, 'status': 0, 'out': out,
+    # setuid/setgid/sticky on the input: the statement still gives the output
+    # the input's PERMISSION bits (rwx) and times; whether that is accompanied
+    # by a warning (status 4) it does not say -> status left unjudged
+    return {'skip': '-', 'fatal': False, 'status': None if special else 0,
+            'out': out,
             'oldrm': pre == 'file', 'fmode': case['inmode'] & 0o777
             if kind != 'unreadable' else 0,
             'atime': AT, 'mtime': MT, 'inrm': not keep}
@@ -583,6 +588,9 @@ def main():
                    res['stdout'], res['stderr_empty'])
             want = (de['status'], strip_atime(exp, de['out']), want_stdout,
                     de['status'] == 0)
+            if de['status'] is None:       # status / stderr unjudged
+                got = (None,) + got[1:3] + (None,)
+                want = (None,) + want[1:3] + (None,)
             if got != want:
                 n_bad_doc += 1
                 replay['documented'] = {'status': want[0], 'after': want[1],
